@@ -13,7 +13,7 @@ Definition m3 : mesh :=
   mkMesh [(q 0, q 0); (q 3, q 0); (q 0, q 3); (q 1, q 0); (q 2, q 0); (q 2, q 1); (q 1, q 2); (q 0, q 2); (q 0, q 1); (q 1, q 1)]
          [[0; 3; 4; 1; 8; 9; 5; 7; 6; 2]] 3 [0; 3; 9] [0; 1; 2].
 
-Ltac dec_solve := cbn; repeat (cbn; match goal with
+Ltac dec_solve := idtac; cbn; repeat (cbn; match goal with
   | |- _ /\ _ => split
   | |- Forall _ [] => constructor
   | |- Forall _ (_ :: _) => constructor
@@ -23,20 +23,20 @@ Ltac dec_solve := cbn; repeat (cbn; match goal with
   | H : In _ _ |- _ => cbn in H
   | H : _ \/ _ |- _ => destruct H
   | H : False |- _ => destruct H
+  | |- _ \/ _ => first [solve [left; dec_solve] | solve [right; dec_solve]]
   | |- _ = _ => reflexivity
   | |- _ < _ => lia
   | H : _ = _ |- _ => discriminate H
   end).
 Ltac dsolve := first [solve [dec_solve] | solve [left; dec_solve] | solve [right; dec_solve]].
-Ltac unf := unfold wf_writer, dict_ok, field_ok, in_range, all_nodes_written_if_spheres, no_cell_data_with_edges,
-                   no_user_sphere_radius.
+Ltac unf := unfold wf_writer, nodal_ok, dict_ok, field_ok, in_range, all_nodes_written_if_spheres, no_cell_data_with_edges.
 Ltac conds := repeat match goal with |- _ /\ _ => split end; unf; dsolve.
 Ltac vmr := repeat match goal with |- _ /\ _ => split end; vm_compute; reflexivity.
 
 (* F9: spheres >= 1 and nodal fields >= 1: write() leaves padded rows in the state, the second file differs and is unreadable *)
 Lemma double_write_witness : exists w0 w1, init m1 = Some w0 /\ add_nodal_field w0 1 [[q 5]; [q 6]; [q 7]] SCALARS DOUBLE = Some w1 /\
   let w := add_sphere w1 (q 2) (q 2) (q 1) in
-  (wf_writer w /\ in_range w /\ all_nodes_written_if_spheres w /\ no_cell_data_with_edges w /\ no_user_sphere_radius w)
+  (wf_writer w /\ in_range w /\ all_nodes_written_if_spheres w /\ no_cell_data_with_edges w)
   /\ parse (fst (write w)) = Some (abstract w)
   /\ fst (write (snd (write w))) <> fst (write w)
   /\ parse (fst (write (snd (write w)))) = None
@@ -46,13 +46,13 @@ Proof.
   split; [conds |]. split; [vm_compute; reflexivity |]. split; [| split].
   - intros H. apply (f_equal (@length tok)) in H. vm_compute in H. discriminate.
   - vm_compute. reflexivity.
-  - intros (_ & _ & [_ H] & _). vm_compute in H. inversion H as [| ? ? [H1 _] _]. discriminate.
+  - intros (_ & _ & [_ H] & _). vm_compute in H. inversion H as [| ? ? [[H1 _] | [H1 _]] _]; discriminate.
 Qed.
 
 (* F10: element order 3: sphere_radius and POINT_DATA use the all-node count, POINTS the output-node count *)
 Lemma sphere_radius_count_witness : exists w0, init m3 = Some w0 /\
   let w := add_sphere w0 (q 1) (q 1) (q 1) in
-  (wf_writer w /\ in_range w /\ no_cell_data_with_edges w /\ no_user_sphere_radius w /\ w_nall w <> length (w_points w))
+  (wf_writer w /\ in_range w /\ no_cell_data_with_edges w /\ w_nall w <> length (w_points w))
   /\ exists d n arrs, parse (fst (write w)) = Some d /\ d_pd d = Some (n, arrs) /\ length (d_pts d) = 4 /\ n = 11
                       /\ c_pd d = false /\ check d = false.
 Proof.
@@ -63,7 +63,7 @@ Qed.
 (* F11: CELL_DATA declares the mesh elements only although CELLS also lists the contact-edge cells *)
 Lemma cell_data_count_witness : exists w0 w1, init m1 = Some w0 /\ add_cell_field w0 1 [[q 5]] SCALARS INT = Some w1 /\
   let w := add_contact_edges w1 [(0, 1)] in
-  (wf_writer w /\ in_range w /\ all_nodes_written_if_spheres w /\ no_user_sphere_radius w)
+  (wf_writer w /\ in_range w /\ all_nodes_written_if_spheres w)
   /\ exists d n arrs, parse (fst (write w)) = Some d /\ d_cd d = Some (n, arrs) /\ length (d_cells d) = 2 /\ n = 1
                       /\ c_cd d = false /\ check d = false.
 Proof.
@@ -75,7 +75,7 @@ Qed.
 Lemma nonvacuous_a : exists w0 w1 w2, init m1 = Some w0
   /\ add_nodal_field w0 1 [[q 1; q 2; q 3; q 4]; [q 5; q 6; q 7; q 8]; [q 9; q 1; q 2; q 3]] TENSORS FLOAT = Some w1
   /\ add_cell_field w1 2 [[q 1; q 2]] VECTORS INT = Some w2
-  /\ (wf_writer w2 /\ in_range w2 /\ all_nodes_written_if_spheres w2 /\ no_cell_data_with_edges w2 /\ no_user_sphere_radius w2)
+  /\ (wf_writer w2 /\ in_range w2 /\ all_nodes_written_if_spheres w2 /\ no_cell_data_with_edges w2)
   /\ parse (fst (write w2)) = Some (abstract w2) /\ check (abstract w2) = true.
 Proof.
   do 3 eexists. do 3 (split; [vm_compute; reflexivity |]). split; [conds | vmr].
@@ -85,7 +85,7 @@ Lemma nonvacuous_b : exists w0 w1, init m1 = Some w0
   /\ add_nodal_field w0 1 [[q 1; q 2]; [q 5; q 6]; [q 9; q 1]] VECTORS DOUBLE = Some w1
   /\ let w := add_contact_edges (add_sphere w1 (q 2) (q 2) (q 1)) [(0, 3)] in
      (w_spheres w <> [] /\ w_edges w <> [] /\ w_nodal w <> [])
-  /\ (wf_writer w /\ in_range w /\ all_nodes_written_if_spheres w /\ no_cell_data_with_edges w /\ no_user_sphere_radius w)
+  /\ (wf_writer w /\ in_range w /\ all_nodes_written_if_spheres w /\ no_cell_data_with_edges w)
   /\ parse (fst (write w)) = Some (abstract w) /\ check (abstract w) = true.
 Proof.
   do 2 eexists. do 2 (split; [vm_compute; reflexivity |]). cbv zeta.
